@@ -231,7 +231,7 @@ def run_check(check: Check, argv=None):
     # or of a slice of the cases (--filter / --limit) writes elsewhere
     from . import harness as _h
     evdir = os.path.join(VERIF, "evidence")
-    if os.path.realpath(_h.REPO) != "/repo" or args.filter or args.limit:
+    if os.path.realpath(_h.REPO) != "/repo" or args.filter or args.limit or os.environ.get("FV_EVIDENCE_DIR"):
         evdir = os.environ.get("FV_EVIDENCE_DIR", "/tmp/fv_evidence_scratch")
     cov["tree"] = _h.REPO
     os.makedirs(evdir, exist_ok=True)
